@@ -148,3 +148,13 @@ Print Assumptions C06_source_query_fragment_accessors.
 Theorem C06_source_path_qs : forall (B : backend) (u : url), gen_path_qs B u = path_qs B u.
 Proof. exact gen_path_qs_ok. Qed.
 Print Assumptions C06_source_path_qs.
+
+(** ... and host, authority, name, suffix *)
+From Yarl Require Import Model.Host Generated.HostGen Proofs.GenHostProofs.
+Theorem C06_source_host_name_suffix : forall (O : oracles) (B : backend) (u : url),
+  gen_host O u = host O u /\ gen_authority O B u = authority O B u
+  /\ gen_name B u = Ok (name B u) /\ gen_suffix B u = Ok (suffix B u).
+Proof.
+  intros O B u. split; [apply gen_host_ok|]. split; [apply gen_authority_ok|]. apply gen_name_suffix_ok.
+Qed.
+Print Assumptions C06_source_host_name_suffix.
